@@ -213,6 +213,10 @@ func hostileSnapshot(rr *core.Rand) (*stack.Snapshot, *marked) {
 		c := stack.Call{}
 		c.Func = stack.Func{Complete: pay(true), ImportPath: pay(false), DirName: pay(true), Name: pay(true), IsExported: rr.Bool(), IsPkgMain: rr.Chance(1, 6)}
 		c.RemoteSrcPath = "/" + pay(true)
+		if rr.Chance(1, 3) {
+			// relative paths (-trimpath builds), possibly with a colon in the first segment
+			c.RemoteSrcPath = rr.Pick([]string{"", "javascript:alert(1)//", "vbscript:x/", "data:text/html,", "C:", "x/"}) + c.RemoteSrcPath[1:]
+		}
 		c.SrcName = pay(true)
 		c.DirSrc = pay(false)
 		c.Line = rr.Intn(100000)
@@ -226,7 +230,7 @@ func hostileSnapshot(rr *core.Rand) (*stack.Snapshot, *marked) {
 			c.RelSrcPath = fam + "u/r/" + pay(false)
 		}
 		if rr.Bool() {
-			c.LocalSrcPath = "/local/" + pay(true)
+			c.LocalSrcPath = rr.Pick([]string{"/local/", "/local/", "javascript:alert(1)//", ""}) + pay(true)
 		}
 		na := rr.Intn(4)
 		for k := 0; k < na; k++ {
@@ -363,7 +367,7 @@ func c17Eval(r *core.Run, voc *vocabulary, c *c17Case) {
 				k++
 				mk := fmt.Sprintf("MRK%dx", k)
 				g.Frames[fi].Sym = gen.Sym{Pkg: "example.com/" + clean(rr.Pick(htmlPayloads)), Name: "F" + mk}
-				g.Frames[fi].File = "/src/" + clean(rr.Pick(htmlPayloads)) + "/" + mk + ".go"
+				g.Frames[fi].File = rr.Pick([]string{"/src/", "/src/", "javascript:alert(1)//", "vbscript:x/", ""}) + clean(rr.Pick(htmlPayloads)) + "/" + mk + ".go"
 				m.markers = append(m.markers, mk)
 				m.nFrames++
 			}
